@@ -145,6 +145,17 @@ def py_loc_edge(rng, ids, style):
     return Unit(lines, [], "py_loc_edge")
 
 
+def py_depth_edge(rng, ids, style):
+    """an if / elif / else chain, a try / except / else / finally and a for / else that sit exactly on the nesting limit of the
+    checks that use these units (max_nesting_depth 4 as Python counts) without being reported: any edit that makes a clause
+    look one level deeper shows up as a new finding"""
+    fn = f"edge_{ids.next()}"
+    return Unit([f"def {fn}(a, items):", "    if a:", "        for i in items:", "            while a:", "                if i == 1:", "                    a = 11",
+                 "                elif i == 2:", "                    a = 12", "                elif i == 3:", "                    a = 13", "                else:", "                    a = 14",
+                 "                try:", "                    a = a + 15", "                except KeyError:", "                    a = 16", "                else:", "                    a = 17",
+                 "                finally:", "                    a = a + 18", "            else:", "                a = 19", "        else:", "            a = 20", "    return a", ""], [], "py_depth_edge")
+
+
 def py_zoo(rng, ids, style):
     """valid modern Python that no planted rule targets: the analyzers must get through it"""
     i = ids.next()
@@ -167,7 +178,7 @@ def py_zoo(rng, ids, style):
 
 PY_UNITS = [(py_nest, ["plain", "multiline", "decorated", "async"]), (py_srp, ["plain", "decorated", "base"]), (py_stateless, ["plain"]),
             (py_method_property, ["plain"]), (py_magic, ["plain", "multiline", "unicode", "continuation"]), (py_print, ["plain", "multiline"]),
-            (py_perf, ["plain"]), (py_pipeline, ["plain"]), (py_filler, ["plain"]), (py_loc_edge, ["plain"]),
+            (py_perf, ["plain"]), (py_pipeline, ["plain"]), (py_filler, ["plain"]), (py_loc_edge, ["plain"]), (py_depth_edge, ["plain"]),
             (py_zoo, ["match", "walrus", "async", "typing", "try"])]
 
 
@@ -436,7 +447,11 @@ def gen_file(rng, lang: str, fid: str, n_units=None, dup_tags=(), layout=True):
             out.append(close_)
         if layout:
             for _ in range(rng.choice([1, 1, 2, 3])):
-                out.append("" if rng.random() < 0.8 else COMMENT[lang] + "separator")
+                r = rng.random()
+                # (8%: characters that str.splitlines() takes for line ends and nothing else does - a form-feed page break, a
+                #  comment holding LINE SEPARATOR / NEL / FILE SEPARATOR)
+                out.append("" if r < 0.74 else COMMENT[lang] + "separator" if r < 0.92 else
+                           rng.choice(["\x0c", COMMENT[lang] + "page\u2028break", COMMENT[lang] + "next\x85line", COMMENT[lang] + "file\x1csep"]))
         else:
             out.append("")
     eol = "\r\n" if layout and rng.random() < 0.2 else "\n"
